@@ -1080,7 +1080,8 @@ fn random_node(rng: &mut Rng, kind: &str, idx: usize, specs: &[NodeSpec], leaf_b
         _ => ins.push(pick_in(rng, ty, idx, specs, leaf_bias)),
     }
     let param = match b {
-        "expirer" => *rng.pick(&[0i64, 1, 1000, 1_000_000_000, 5_000_000_000]),
+        // (the limit is any Time: zero, and negative ones - "only data stamped ahead of the clock" - included)
+        "expirer" => *rng.pick(&[0i64, 1, 1000, 1_000_000_000, 5_000_000_000, -1, -1000, -5_000_000_000]),
         "n2v" => match ty {
             Ty::B => rng.below(2) as i64,
             _ => fb(rng.moderate_f32()),
